@@ -8,7 +8,7 @@ from .. import core
 from ..core import hexb
 from ..canvasrun import CanvasRunner, gen_config
 
-MODULES = ["Robsd.Props.C11", "Robsd.Props.C11Lock"]
+MODULES = ["Robsd.Props.C11", "Robsd.Props.C11Lock", "Robsd.Props.C04Kill"]
 GENS = []
 
 
@@ -255,6 +255,14 @@ def run(ctx):
         wants.append("lock=%s immutable=%d reports=%d mails=%d alive=0 next=%d" % ("!" if not res["lock_left"] else "left", 1 if info["flag_left"] else 0,
                                                                                    0 if res["report"] is None else 1, nmail, 1 if nxt["rc"] == 0 else 0))
         infos.append(dict(info, what=what))
+        # the loop itself: Orch.runK with the exit the terminated step was recorded with; the lock is found dead
+        # by the test that follows the first step completed after robsd-kill (b when synchronous, else c)
+        bex = rows.get("b", {}).get("exit", 1) or 1
+        seen_at = 3 if par else 2
+        reqs.append("orchp resultk 2 - 0,0,%d,0,0 1:0:0,2:%d:0,3:0:0,4:0:1 %d" % (bex, 1 if par else 0, seen_at))
+        ran = sorted({"a": 1, "b": 2, "c": 3}[r["name"]] for r in res["rows"] if r["name"] in ("a", "b", "c"))
+        wants.append("%s %s %s" % ("fail" if (res["rc"] != 0 or detach) else "ok", "end" if "end" in rows else "noend", ",".join(map(str, ran))))
+        infos.append(dict(info, what=what + " (Orch.runK)"))
     ans = ctx.model(reqs) if reqs else []
     for q, a, w, info in zip(reqs, ans, wants, infos):
         f = a.strip().split(" ")
